@@ -126,7 +126,7 @@ class Detector:
         input_to_adc = (shot_noise + read_noise + self.bias)
         input_to_adc[input_to_adc > self.fwc] = self.fwc
         output = input_to_adc * scaling
-        adc_cap = 2 ** self.bits
+        adc_cap = 2 ** self.bits - 1  # largest code of an N-bit ADC
         output[output < 0] = 0
         output[output > adc_cap] = adc_cap
         # output will be of type int64, only good for 63 unsigned bits
